@@ -2,10 +2,13 @@ package chaincheck
 
 import (
 	"bytes"
+	"encoding/json"
 	"fmt"
 	"testing"
 
 	"pgregory.net/rapid"
+
+	"github.com/bytom/bytom/protocol/state"
 
 	ck "verifharness/chainkit"
 	"verifharness/pbt"
@@ -45,9 +48,16 @@ type c19Snap struct {
 }
 
 func c19RunOn(c c19Case, w *ck.World, nOrig int, db *ck.CrashDB, stopWhenCrashed bool, script []resolvedEv) (*hist, []c19Snap, error) {
+	return c19RunOnHook(c, w, nOrig, db, stopWhenCrashed, script, nil)
+}
+
+func c19RunOnHook(c c19Case, w *ck.World, nOrig int, db *ck.CrashDB, stopWhenCrashed bool, script []resolvedEv, started func(*ck.Node)) (*hist, []c19Snap, error) {
 	n, err := ck.NewNode(w, db)
 	if err != nil {
 		return nil, nil, fmt.Errorf("HARNESS: cannot start node: %v", err)
+	}
+	if started != nil {
+		started(n)
 	}
 	h := &hist{w: w, n: n, delivered: map[int]bool{0: true}, ffg: newFFG(w), script: script}
 	for i := 1; i < nOrig; i++ {
@@ -83,7 +93,30 @@ func c19Exec(c c19Case, x *pbt.Ctx) error {
 	ref.Stop()
 	base := refDB.Writes()
 	refDB2 := ck.NewCrashDB(ck.NewMemDB())
-	hRef, snaps, err := c19RunOn(c, w, nOrig, refDB2, false, nil)
+	// best blocks the crash-free node reports between two commits of one event (one delivery can
+	// attach a parent and its waiting orphans one after another: each is best for a moment)
+	midBest := map[int]bool{}
+	var refNode *ck.Node
+	midFin := map[int]bool{}
+	refDB2.OnWrite = func() {
+		if refNode != nil {
+			midBest[refNode.BestIdx()] = true
+		}
+		// finalized checkpoints between two commits, read from the records themselves (the engine's
+		// lock is held by the writer at this point)
+		it := refDB2.DB.IteratorPrefix([]byte{6, ':'})
+		defer it.Release()
+		for it.Next() {
+			cp := &state.Checkpoint{}
+			if json.Unmarshal(it.Value(), cp) == nil && cp.Status == state.Finalized {
+				if i, ok := w.ByHash[cp.Hash]; ok {
+					midFin[i] = true
+				}
+			}
+		}
+	}
+	hRef, snaps, err := c19RunOnHook(c, w, nOrig, refDB2, false, nil, func(n *ck.Node) { refNode = n })
+	refDB2.OnWrite = nil
 	if err != nil {
 		return fmt.Errorf("HARNESS: crash-free run failed: %v", err)
 	}
@@ -100,6 +133,14 @@ func c19Exec(c c19Case, x *pbt.Ctx) error {
 	bestSeen := map[int]bool{0: true}
 	finSeen := map[int]bool{0: true}
 	boundary := map[int]bool{base: true}
+	for b := range midBest {
+		if b >= 0 {
+			bestSeen[b] = true
+		}
+	}
+	for f := range midFin {
+		finSeen[f] = true
+	}
 	for _, s := range snaps {
 		bestSeen[s.best] = true
 		finSeen[s.fin] = true
@@ -172,6 +213,34 @@ func c19Exec(c c19Case, x *pbt.Ctx) error {
 				okBest = true
 			}
 		}
+		if !okBest && best >= 0 {
+			// ... or the best chain of a crash-free node that has been given exactly the connected
+			// blocks this node has in its store (blocks that were waiting as orphans are lost with the
+			// process, so the restarted node can know fewer blocks than any state of the crash-free
+			// run of this delivery order): fork choice over the stored blocks, with the node's own
+			// justification records and finalized checkpoint
+			stored := map[int]bool{0: true}
+			for i := 1; i < nOrig; i++ {
+				if n.Has(i) {
+					connected := true
+					for k := i; k != 0; k = w.Blocks[k].Parent {
+						if !n.Has(k) {
+							connected = false
+						}
+					}
+					if connected {
+						stored[i] = true
+					}
+				}
+			}
+			hx := &hist{w: w, n: n}
+			// (only if every checkpoint record belongs to a stored block: justification or finality taken
+			// from a block the node does not have is no state of a crash-free node, see the known finding)
+			if fin, ferr := hx.finalizedIdx(); ferr == nil && finSeen[fin] && checkpointRecordWithoutBlock(n, nOrig) < 0 && best == forkChoice(w, stored, fin, hx.nodeJustified) {
+				okBest = true
+				x.Class("restart-best-is-fork-choice-over-stored-blocks")
+			}
+		}
 		if !okBest {
 			// known finding: casper persists what a block's header signatures do to the checkpoints
 			// (justify the block's checkpoint, finalize its source, prune the other branches) before
@@ -229,7 +298,10 @@ func c19Exec(c c19Case, x *pbt.Ctx) error {
 		if got := n.BestIdx(); got != final.best {
 			// the winner is in the store (it was saved before the crash point) and not higher than the
 			// restarted node's best block, which is exactly when ProcessBlock answers "already processed"
-			tie := got >= 0 && storedAtRestart[final.best] && w.Blocks[got].Block.Height >= w.Blocks[final.best].Block.Height
+			// ... or the node's best block is an ancestor of the winner: a justification arriving after
+			// the restart rolls the chain back to the justified checkpoint itself, because the stored
+			// descendants of that checkpoint are not in casper's tree either
+			tie := got >= 0 && storedAtRestart[final.best] && (w.Blocks[got].Block.Height >= w.Blocks[final.best].Block.Height || w.IsAncestor(got, final.best))
 			if !tie {
 				n.Stop()
 				return fmt.Errorf("%s: after re-delivering all blocks and votes the best block is #%d, the crash-free run ends at #%d", where, got, final.best)
@@ -325,5 +397,5 @@ func keys(m map[int]bool) []int {
 
 func TestC19(t *testing.T) {
 	pbt.Run(t, "C19", "histories of 5-12 blocks (forks, reorganisations, transactions, block-carried links) and up to 6 vote bursts; a crash-free run counts the storage writes W; for every crash point k in [0,W] (all for short histories and in the thorough tier, else ~40 evenly spread plus every event boundary +-1) the history is re-run on a database dropping all writes after k, then a new chain is opened: it must start, be a consistent state the crash-free run passed through (best block, index, ledger = model, finalized checkpoint), and converge to the crash-free final state after re-delivery; non-trivial = a case with crash points strictly between two commits of one event",
-		pbt.Options{Journal: true, Checks: pbt.Per(14, 600), MaxSamples: 8}, c19Gen, c19Exec)
+		pbt.Options{Journal: true, Checks: pbt.Per(14, 2400), MaxSamples: 8}, c19Gen, c19Exec)
 }
